@@ -7,6 +7,8 @@ import (
 
 func dumpDebug(p *Prog, what string) {
 	switch what {
+	case "names":
+		p.dumpNames()
 	case "cha":
 		roots := []string{"scheduler.ClusterContext.schedule", "objects.Queue.TryQuotaPreemption", "objects.Application.timeoutStateTimer", "objects.Application.timeoutPlaceholderProcessing"}
 		for _, g := range []string{"vta", "cha"} {
